@@ -280,7 +280,8 @@ def property_lines(rng, n):
             try:
                 args[prop] = parse_into_datetime(args[prop], *first)
                 c = civil(args[prop].astimezone(dt.timezone.utc), 0)       # the value actually handed over, in UTC
-            except OverflowError:
+            except Exception:  # noqa  (OverflowError near the ends of the range; whatever else the conversion refuses is judged by the dt / stixdt lines)
+                args[prop] = mkdt(c, False)
                 first = None
         if prop == "created" and cls != "File":
             args["modified"] = dt.datetime(9000, 1, 1, tzinfo=dt.timezone.utc)
